@@ -27,6 +27,8 @@ mod c09;
 mod c18;
 mod gen_schema_chain;
 mod c16;
+mod c14;
+mod c15;
 
 use out::Out;
 
@@ -86,6 +88,8 @@ fn main() {
                 "c09" => c09::run(&args, &mut out),
                 "c18" => c18::run(&args, &mut out),
                 "c16" => c16::run(&args, &mut out),
+                "c14" => c14::run(&args, &mut out),
+                "c15" => c15::run(&args, &mut out),
                 s => { eprintln!("unknown stream {s}"); std::process::exit(2); }
             }
             out.write(&args.out);
